@@ -247,7 +247,7 @@ class _Generator(Generator):
                 member_name_to_is_present[member.name] = unique_is_present
 
                 if self.is_buffer_type(member):
-                    default_variable = canonical(member.name) + '_default'
+                    default_variable = self.get_buffer_default_variable(member)
 
                     encode_lines += [
                         'encoder_append_bool(encoder_p, {});'.format(
